@@ -55,6 +55,10 @@ def _one(rec, variant):
                 continue
             species = [s.getId() for s in mod.getListOfSpecies()]
             glob = {p.getId(): p.getValue() for p in mod.getListOfParameters()}
+            # every identifier of the document is defined once (SBML ids share one namespace)
+            all_ids = [e.getId() for lst in (mod.getListOfCompartments(), mod.getListOfSpecies(), mod.getListOfParameters(), mod.getListOfReactions())
+                       for e in lst if e.isSetId()]
+            dup = {i for i in all_ids if all_ids.count(i) > 1}
             if mod.getNumReactions() != len(rxs):
                 bad.append(["reaction-count", mode, "-", "%d reactions written for %d" % (mod.getNumReactions(), len(rxs))])
                 continue
@@ -82,6 +86,11 @@ def _one(rec, variant):
                 formula = libsbml.formulaToL3String(math)
                 if undefined:
                     bad.append(["kinetic-law", lt, mode, "reaction %d: kinetic law '%s' refers to %r, which the document does not define" % (r, formula, undefined)])
+                    continue
+                ambiguous = sorted(i for i in ids if i in dup)
+                if ambiguous:
+                    bad.append(["kinetic-law", lt, mode, "reaction %d: kinetic law '%s' refers to %r, which the document defines more than once (%s)" % (
+                        r, formula, ambiguous, ", ".join(sorted(type(e).__name__ for lst in (mod.getListOfCompartments(), mod.getListOfSpecies(), mod.getListOfParameters(), mod.getListOfReactions()) for e in lst if e.getId() == ambiguous[0])))])
                     continue
                 for i, xx in enumerate(states):
                     env = dict(glob)
